@@ -56,3 +56,10 @@ impl CMsgHdr for libc::cmsghdr {
         self.cmsg_len as _
     }
 }
+
+#[cfg(feature = "__verif-hooks")]
+#[allow(missing_docs, unreachable_pub, dead_code, unused_imports, unused_qualifications)]
+pub mod verif {
+    use super::*;
+    include!(concat!(env!("QUINN_VERIF_HOOKS"), "/udp/cmsg/unix.rs"));
+}
